@@ -95,6 +95,28 @@ def add_iter(cr, D, zb, kind):
     cr.add("O02.iter(D=%d,%s)" % (D, kind), "O02.iter", D, ["m", "n", "j1", "j2", "j3"], body, wants, cases=cases)
 
 
+def add_cursor(cr, D):
+    """cursors (home()): indexing / call form / += of an index tuple designate the element at those offsets from the view's first element; the const
+    cursor designates the same addresses; stride<k>() is the k-th stride (zero-based views)"""
+    v = vs.root(D, True)
+    idx = ["i%d" % k for k in range(D)]
+    br = "".join("[%s]" % i for i in idx)
+    call = "(%s)" % ", ".join(idx)
+    body = ("auto c = v.home(); auto const cc = std::as_const(v).home(); "
+            "out[0] = eaddr(c%s, base); out[1] = eaddr(c%s, base); out[2] = eaddr(cc%s, base); out[3] = eaddr(cc%s, base); "
+            "{ auto d = c; typename decltype(d)::indices_type t{%s}; d += t; out[4] = eaddr(*d, base); out[5] = eaddr(*d.operator->(), base); out[6] = eaddr(*d.base(), base); } "
+            "out[7] = eaddr(*c, base); "
+            % (br, call, br, call, ", ".join(idx))
+            + " ".join("out[%d] = c.template stride<%d>();" % (9 + k, k) for k in range(D)))
+    at = v.addr([A(i) for i in idx]) * viewops.ELEM
+    first = v.addr([P.const(0)] * D) * viewops.ELEM
+    w = {(0, "home()[i]..."): at, (1, "home()(i...)"): at, (2, "const home()[i]..."): at, (3, "const home()(i...)"): at,
+         (4, "*(home()+=tuple)"): at, (5, "(home()+=tuple)->"): at, (6, "(home()+=tuple).base()"): at, (7, "*home()"): first}
+    for k in range(D):
+        w[(9 + k, "stride<%d>" % k)] = v.dims[k].s
+    cr.add("O02.cursor(D=%d)" % D, "O02.cursor", D, idx, body, w)
+
+
 def digits(k, zs, fs):
     """canonical index tuple of linear position k (last index fastest), as the specification defines it"""
     out = []
@@ -450,6 +472,9 @@ def run(tier):
         for D in range(1, (3 if tier == "thorough" else 2) + 1):
             if zb:
                 add_flat(cr, D, zb)
+        if zb:
+            for D in range(1, maxd + 1):
+                add_cursor(cr, D)
         cr.compile(nshards=8, extra_prelude=EXTRA)
         cr.check()
     cr = viewops.CustomRun(rep, "C02", True, wd, "canon")
